@@ -31,7 +31,7 @@ allvars == <<reg, live, own, grp, warm, hist>>
 Regs == {"r1", "r2", "r3"}
 Nil == [dims |-> <<>>, kinds |-> <<>>, labs |-> <<>>, aattrs |-> <<>>, dtype |-> "f", attrs |-> 0, cells |-> <<0>>]
 Seed1 == Fresh(<<"x", "y">>, <<"i", "i">>, << <<2, 4, 6>>, <<2, 4>> >>, <<1, 2>>, "f", 7, 100)
-Seed2 == Fresh(<<"x">>, <<"i">>, << <<4, 6, 8>> >>, <<3>>, "f", 8, 200)
+Seed2 == Fresh(<<"x">>, <<"i">>, << <<6, 4, 8>> >>, <<3>>, "f", 8, 200)     \* labels stored unsorted
 
 Snapshot == [r \in Regs |-> IF live[r] THEN reg[r] ELSE Nil]
 Record(act, args) == hist' = Append(hist, [act |-> act, args |-> args, post |-> [r \in Regs |-> IF live'[r] THEN reg'[r] ELSE Nil],
@@ -65,7 +65,9 @@ Index(src, dst, form) ==
                  [] form = "unsorted" -> IxLi(<<L[1], L[Len(L)], L[2]>>)
                  [] form = "slice" -> IxSl(<<L[2]>>, <<>>, <<>>)
                  [] form = "scalar" -> IxSc(L[1])
-         r == Take(a, [i \in 1..NDim(a) |-> IF i = p THEN ix ELSE IxAll], "label", <<>>)
+                 [] form = "ixslice" -> IxSl(<<1>>, <<>>, <<>>)          \* by position: a.ix[1:] along x
+                 [] form = "ixlist" -> IxLi(<<Len(L) - 1, 0>>)           \* by position: a.take([n-1, 0], axis=x, indexing="position")
+         r == Take(a, [i \in 1..NDim(a) |-> IF i = p THEN ix ELSE IxAll], IF form \in {"ixslice", "ixlist"} THEN "position" ELSE "label", <<>>)
      IN r.ok /\ Put5(dst, r.val, FALSE, grp[src], warm[src]) /\ Record("index", Args(src, dst, form, <<>>))
 TransposeOp(src, dst) ==
   /\ Bound /\ live[src] /\ NDim(reg[src]) = 2
@@ -111,7 +113,7 @@ AlignSorted(r1, r2, join) ==
 Query(kind, r1, r2) ==
   /\ Bound /\ live[r1] /\ live[r2] /\ UNCHANGED <<reg, live, own, grp>> /\ warm' = [warm EXCEPT ![r1] = TRUE, ![r2] = TRUE]
   /\ (kind \in {"add", "align", "stack_align", "concat_align"} => r1 # r2)
-  /\ (kind \in {"is_monotonic", "label_slice", "sum", "flatten", "repr"} => r1 = r2)
+  /\ (kind \in {"is_monotonic", "label_slice", "sum", "flatten", "repr", "absent_label", "absent_in_list", "first_label"} => r1 = r2)
   /\ Record("query", Args(r1, r2, kind, <<>>))
 
 (* ---------- in-place operations, on owning registers only ---------- *)
@@ -139,19 +141,21 @@ SetAttr(r) ==                 \* a.attrs['mut'].append(..) and a.units = ..  : m
 
 NewLabs == {<<6, 4, 2>>, <<4, 2, 6>>, <<2, 4, 8>>, <<8, 6>>, <<6, 2>>, <<8, 2, 4>>}
 NextAll ==
-  \/ \E s \in Regs : \E d \in Regs : \E f \in {"list", "unsorted", "slice", "scalar"} : Index(s, d, f)
+  \/ \E s \in Regs : \E d \in Regs : \E f \in {"list", "unsorted", "slice", "scalar", "ixslice", "ixlist"} : Index(s, d, f)
   \/ \E s \in Regs : \E d \in Regs : TransposeOp(s, d) \/ SortOp(s, d) \/ CopyOp(s, d) \/ CtorMeta(s, d) \/ ViaDataset(s, d) \/ RepeatOp(s, d) \/ SqueezeBack(s, d)
   \/ \E s \in Regs : \E d \in Regs : \E new \in NewLabs : ReindexOp(s, d, new)
   \/ \E a \in Regs : \E b \in Regs : \E j \in {"outer", "inner"} : AlignSorted(a, b, j)
-  \/ \E a \in Regs : \E b \in Regs : \E k \in {"add", "align", "stack_align", "concat_align", "is_monotonic", "label_slice", "sum", "flatten", "repr"} : Query(k, a, b)
+  \/ \E a \in Regs : \E b \in Regs : \E k \in {"add", "align", "stack_align", "concat_align", "is_monotonic", "label_slice", "sum", "flatten", "repr",
+                                                    "absent_label", "absent_in_list", "first_label"} : Query(k, a, b)
   \/ \E r \in Regs : \E f \in {"scalar", "list"} : SetItem(r, f)
   \/ \E r \in Regs : \E f \in {"all", "attr", "one"} : \E new \in NewLabs \cup {<<5>>, <<9>>} : Relabel(r, f, new)
   \/ \E r \in Regs : RenameAxis(r) \/ RenameBack(r) \/ SetAttr(r)
 \* cached-state focus: queries that may populate caches, then operations whose result could depend on them
 NextCache ==
   \/ \E s \in {"r1", "r2"} : \E f \in {"unsorted", "slice"} : Index(s, "r3", f) \/ Index(s, s, f)
-  \/ \E a \in Regs : \E b \in Regs : \E k \in {"add", "align", "stack_align", "is_monotonic", "label_slice", "flatten"} : Query(k, a, b)
-  \/ \E r \in {"r1", "r2"} : \E f \in {"all", "one"} : \E new \in {<<6, 4, 2>>, <<4, 2, 6>>, <<9>>} : Relabel(r, f, new)
+  \/ \E a \in Regs : \E b \in Regs : \E k \in {"add", "align", "stack_align", "is_monotonic", "label_slice", "flatten", "absent_label", "first_label"} : Query(k, a, b)
+  \/ \E s \in {"r1", "r2"} : Index(s, "r3", "ixslice")
+  \/ \E r \in {"r1", "r2"} : \E f \in {"all", "one"} : \E new \in {<<6, 4, 2>>, <<4, 2, 6>>, <<2, 4, 8>>, <<9>>} : Relabel(r, f, new)
   \/ \E s \in {"r1", "r2"} : SortOp(s, "r3") \/ CopyOp(s, "r3") \/ ReindexOp(s, "r3", <<8, 2, 4>>)
 Next == IF Focus = "cache" THEN NextCache ELSE NextAll
 
